@@ -205,4 +205,11 @@ def Meter.init : Meter := ⟨0, 0⟩
 def Meter.add (perUnit : Nat) (m : Meter) (t g : Nat) : Meter :=
   ⟨(m.level - perUnit * (t - m.t)) + g, max t m.t⟩
 
+/-- meter levels after each granted request of a decided history -/
+def meterLevels (rate : Nat) : Meter → List ((Nat × Nat) × Bool) → List Nat
+  | _, [] => []
+  | m, ((t, n), ok) :: rest =>
+    if ok then (m.add rate t n).level :: meterLevels rate (m.add rate t n) rest
+    else meterLevels rate m rest
+
 end GoZero.C03.Spec
